@@ -5,7 +5,8 @@
    outcome of the flush function (OComplete ops and the wait-outcomes carried by OFlush / OFlushWait). *)
 From Verif Require Import Base.Lex Pipelined.Model Pipelined.ProofsBuf Pipelined.ProofsShape Pipelined.ProofsRead
   Pipelined.ProofsBatch Pipelined.ProofsOnce Pipelined.ProofsErr Pipelined.ProofsCommit Pipelined.ProofsBounds Pipelined.ProofsRange
-  Pipelined.ProofsDyn Pipelined.ProofsPrimary.
+  Pipelined.ProofsDyn Pipelined.ProofsPrimary Pipelined.ProofsKeepAlive
+  Pipelined.ProofsTop.
 
 (* Get and BatchGet return the latest value the transaction wrote (rmap (rrun ops): one plain map with staging
    snapshots), wherever it lives — mutable buffer, flushing buffer, batch-get cache, store tier; a delete is returned
@@ -21,13 +22,7 @@ Theorem C16_read_latest : forall P ops,
   (forall ks k, In k ks -> lookup k (fst (fst (bget s ks))) = lookup k truth) /\
   (forall k, lookup k (rmap (rrun (ops ++ [ODel k]))) = Some []) /\
   truth = writes_of (wl (wrun ops)).
-Proof.
-  intros P ops Hc s truth. pose proof (rinv_run P ops Hc) as H. repeat split.
-  - intros k. apply get_view; exact H.
-  - intros ks k Hin. apply bget_view; assumption.
-  - intros k. unfold rrun. rewrite fold_left_app. cbn [fold_left rstep rmap]. apply lookup_insert_same.
-  - apply rmap_is_writes_of_log.
-Qed.
+Proof. exact C16_read_latest_proof. Qed.
 Print Assumptions C16_read_latest.
 
 (* The i-th call of the flush function carries generation i+1; at most one call runs at any time; the write log of the
@@ -41,12 +36,7 @@ Theorem C16_flush_once : forall P ops,
   concat (segs s) ++ seg s = wl (wrun ops) /\
   map buf_of (flog s) = map writes_of (segs s) /\
   mem s = writes_of (seg s).
-Proof.
-  intros P ops s. pose proof (oinv_run P ops) as [H1 H2 H3 H4 H5 H6 H7]. pose proof (shape_run P ops) as Hs.
-  repeat split; try assumption.
-  - unfold s. rewrite (sh_running _ Hs). destruct (inflight (run P ops)); lia.
-  - apply (sh_maxrun _ Hs).
-Qed.
+Proof. exact C16_flush_once_proof. Qed.
 Print Assumptions C16_flush_once.
 
 (* A flush function returning an error closes the transaction; from then on every flush still running or started later
@@ -63,13 +53,7 @@ Theorem C16_flush_error_fails_txn : forall P ops,
      let s2 := fst (commit_attempt P s wo1 wo2) in
      closed s2 = false /\ mem s2 = [] /\ flushing s2 = None /\
      forall k, lookup k (store s2) = lookup k (rmap (rrun ops))).
-Proof.
-  intros P ops s. split; [exact complete_error_closes|]. split.
-  - intros Hc ops' wo1 wo2 s'.
-    destruct (failed_txn_stays_failed P s ops' wo1 wo2 (shape_run P ops) Hc) as [A B].
-    repeat split; try assumption. intros Hi o. apply complete_closed; assumption.
-  - intros wo1 wo2 Hok. apply commit_ok_all_stored; exact Hok.
-Qed.
+Proof. exact C16_flush_error_fails_txn_proof. Qed.
 Print Assumptions C16_flush_error_fails_txn.
 
 (* Whatever was flushed (keys non-empty), for every static region layout (strictly increasing split keys) the range
@@ -82,15 +66,7 @@ Theorem C16_resolve_covers : forall P ops sp,
   (forall k, In k (flushed_keys s) ->
      need_resolve s = true /\ In (locate sp k) (resolved_regions sp (pstart s) (pend s))) /\
   covers sp (resolved_regions sp (pstart s) (pend s)) (flushed_keys s) = true.
-Proof.
-  intros P ops sp Hok Hsp s. pose proof (binv_run P ops Hok) as [_ _ Hb].
-  assert (G : forall k, In k (flushed_keys s) ->
-     need_resolve s = true /\ In (locate sp k) (resolved_regions sp (pstart s) (pend s))).
-  { intros k Hk. destruct (Hb k Hk) as (A & B & C & D). split.
-    - unfold need_resolve. fold s in A, B. destruct (pstart s); [congruence|]. destruct (pend s); [congruence|]. reflexivity.
-    - apply run_on_range_covers; assumption. }
-  split; [exact G|]. unfold covers. apply forallb_forall. intros k Hk. apply mem_nat_In, G, Hk.
-Qed.
+Proof. exact C16_resolve_covers_proof. Qed.
 Print Assumptions C16_resolve_covers.
 
 (* The same when the region layout changes while the range task runs (splits and merges between any two steps of the
@@ -103,13 +79,7 @@ Theorem C16_resolve_covers_dynamic : forall P ops envs served,
   resolved_seq envs (pstart s) (pend s) = Some served ->
   (forall k, In k (flushed_keys s) -> exists r, In r served /\ rcontains r k = true) /\
   served_covers served (flushed_keys s) = true.
-Proof.
-  intros P ops envs served Hok s Hres. pose proof (binv_run P ops Hok) as [_ _ Hb].
-  assert (G : forall k, In k (flushed_keys s) -> exists r, In r served /\ rcontains r k = true).
-  { intros k Hk. destruct (Hb k Hk) as (_ & _ & C & D). eapply resolved_seq_covers; eassumption. }
-  split; [exact G|]. unfold served_covers. apply forallb_forall. intros k Hk.
-  destruct (G k Hk) as (r & Hin & Hc). apply existsb_exists. exists r; split; assumption.
-Qed.
+Proof. exact C16_resolve_covers_dynamic_proof. Qed.
 Print Assumptions C16_resolve_covers_dynamic.
 
 (* One primary for all generations: it is chosen by the first flush that is sent, is one of the flushed keys (so the
@@ -128,29 +98,40 @@ Theorem C16_crash_recoverable : forall P ops,
      ccommitted c = [] /\ cstat c <> PCommitted /\
      (forall k, In k locks -> In k ks -> ~ In k (clocks c) /\ In k (crolled c)) /\
      (forall k, In k (clocks c) -> In k (flushed_keys s))).
-Proof.
-  intros P ops Hok s. destruct (pinv_run P ops Hok) as [H1 H2]. split; [|split].
-  - intros Hne. split; [apply H1; exact Hne|apply H2, H1, Hne].
-  - intros ops' Hp. apply primary_stable; exact Hp.
-  - intros locks ks Hsub. destruct (crash_resolvers locks ks) as (A & B & C & D).
-    repeat split; try assumption; try (apply C; assumption). intros k Hk. apply Hsub, D, Hk.
-Qed.
+Proof. exact C16_crash_recoverable_proof. Qed.
 Print Assumptions C16_crash_recoverable.
 
+(* Keep-alive of the primary lock and the failure latch (faithful to a2d1351): the ttl manager runs only once a flush that is
+   really sent has been acknowledged (or its primary batch was, OTmStart) — then a primary exists and is a flushed key;
+   Commit / Rollback (OEnd) and every failed flush (committer.close()) stop it; and a flush function that returns an error — plain or ErrKeyExist — latches the
+   transaction as failed WHATEVER the state of the keep-alive (the seeded "latch" class is this conjunct). *)
+Theorem C16_keepalive_and_latch : forall P ops,
+  forallb op_keys_ok ops = true ->
+  let s := run P ops in
+  (tmrun s = true -> primary s <> [] /\ In (primary s) (flushed_keys s)) /\
+  (forall s0 b, inflight s0 = true -> tmrun s0 = b ->
+     closed (complete s0 false) = true /\ pending (complete s0 false) = Some false) /\
+  (forall s0 k, inflight s0 = true -> closed (complete_exist s0 k) = true) /\
+  tmrun (fst (step P s OEnd)) = false.
+Proof. exact C16_keepalive_and_latch_proof. Qed.
+Print Assumptions C16_keepalive_and_latch.
+
+(* handleAlreadyExistErr: whenever Flush or FlushWait reports ErrKeyExist{k} with value v, v is what the buffer handed to the
+   most recent flush call — the generation that failed — holds for k (None if that generation did not write k). *)
+Theorem C16_already_exist_value : forall P ops o k v,
+  snd (step P (run P ops) o) = RErrExist k v ->
+  v = lookup k (buf_of (last_flog (run P ops))).
+Proof. exact C16_already_exist_value_proof. Qed.
+Print Assumptions C16_already_exist_value.
+
 (* Regression witnesses for the formula before a4a602e ([pipelinedStart, pipelinedEnd) with the largest key exclusive). *)
-Definition P0 := {| minkeys := 0; minsize := 0; forcesize := 0 |}.
-Definition k1 : key := [107; 49].   (* "k1" *)
-Definition k5 : key := [107; 53].   (* "k5" *)
-Definition v1 : value := [118].
 
 Theorem C16_resolve_covers_prefix_refuted :
   exists P ops sp, forallb op_keys_ok ops = true /\ ssorted sp /\
     let s := run P ops in
     flushed_keys s = [k1] /\ resolved_regions_prefix sp (pstart s) (pend s) = [] /\
     covers sp (resolved_regions_prefix sp (pstart s) (pend s)) (flushed_keys s) = false.
-Proof.
-  exists P0, [OSet k1 v1; OFlush true 0 true], []. repeat split; try (vm_compute; reflexivity). constructor.
-Qed.
+Proof. exact C16_resolve_covers_prefix_refuted_proof. Qed.
 Print Assumptions C16_resolve_covers_prefix_refuted.
 
 Theorem C16_resolve_covers_prefix_border_refuted :
@@ -158,10 +139,7 @@ Theorem C16_resolve_covers_prefix_border_refuted :
     let s := run P ops in
     flushed_keys s = [k1; k5] /\ locate sp k5 = 1%nat /\ resolved_regions_prefix sp (pstart s) (pend s) = [0%nat] /\
     covers sp (resolved_regions_prefix sp (pstart s) (pend s)) (flushed_keys s) = false.
-Proof.
-  exists P0, [OSet k5 v1; OSet k1 v1; OFlush true 0 true], [k5]. repeat split; try (vm_compute; reflexivity).
-  repeat constructor.
-Qed.
+Proof. exact C16_resolve_covers_prefix_border_refuted_proof. Qed.
 Print Assumptions C16_resolve_covers_prefix_border_refuted.
 
 (* ---- non-vacuity *)
@@ -206,4 +184,20 @@ Example crash_nonvacuous :
   let s := run P0 [OSet k5 v1; OSet k1 v1; OFlush true 0 true; OComplete true; OSet k5 [119]; OFlush true 0 true] in
   primary s = k1 /\ flushed_keys s = [k1; k5; k5] /\
   clocks (crun (crash_state [k1; k5]) [k5; k1]) = [] /\ crolled (crun (crash_state [k1; k5]) [k5; k1]) = [k1; k5].
+Proof. vm_compute. repeat split. Qed.
+
+(* the F33 scenario on the model: the FIRST flush fails (keep-alive never started), the latch still holds *)
+Example latch_without_keepalive :
+  let s := run P0 [OSet k1 v1; OSet k5 v1; OFlush true 0 true; OCompleteExist k5; OFlushWait true; OSet k1 [119]; OFlush true 0 true] in
+  tmrun s = false /\ closed s = true /\
+  snd (step P0 (run P0 [OSet k1 v1; OSet k5 v1; OFlush true 0 true; OCompleteExist k5]) (OFlushWait true)) = RErrExist k5 (Some v1) /\
+  snd (flush_wait s true) = RWait false /\ snd (commit_attempt P0 s true true) = false.
+Proof. vm_compute. repeat split. Qed.
+
+Example keepalive_nonvacuous :
+  tmrun (run P0 [OSet k1 v1; OFlush true 0 true; OComplete true]) = true /\
+  tmrun (run P0 [OSet k1 v1; OFlush true 0 true; OTmStart]) = true /\
+  tmrun (run P0 [OSet k1 v1; OFlush true 0 true; OTmStart; OComplete false]) = false /\
+  closed (run P0 [OSet k1 v1; OFlush true 0 true; OTmStart; OComplete false]) = true /\
+  tmrun (run P0 [OSet k1 v1; OFlush true 0 true; OComplete true; OEnd]) = false.
 Proof. vm_compute. repeat split. Qed.
